@@ -98,6 +98,7 @@ type State struct {
 	pcSet   map[int]bool
 	ND      []NDRec
 	Notes   []string
+	Reached []string
 	Access  []Access
 	NFresh  int
 	dirty   bool
@@ -142,7 +143,7 @@ func (st *State) pcHas(c *smt.Term) bool { return st.pcSet[c.ID] }
 func (st *State) clone() *State {
 	n := &State{
 		Cur: st.Cur, PC: st.PC[:len(st.PC):len(st.PC)], ND: st.ND[:len(st.ND):len(st.ND)],
-		Notes: st.Notes[:len(st.Notes):len(st.Notes)], Access: st.Access[:len(st.Access):len(st.Access)],
+		Notes: st.Notes[:len(st.Notes):len(st.Notes)], Reached: st.Reached[:len(st.Reached):len(st.Reached)], Access: st.Access[:len(st.Access):len(st.Access)],
 		NFresh: st.NFresh, Steps: st.Steps, LogOn: st.LogOn, Tainted: st.Tainted, nextTid: st.nextTid, ForkDepth: st.ForkDepth, Interleave: st.Interleave, Switches: st.Switches,
 	}
 	n.Heap = make(map[*Obj]Val, len(st.Heap))
